@@ -21,18 +21,18 @@ THEOREMS = [
     'C03_function', 'C03_function_pure', 'C03_function_nonvacuous', 'C03_same_profiler_nested',
     'C03_two_profilers_refuted',
     'C03_coroutine', 'C03_coroutine_nonvacuous', 'C03_coroutine_hypotheses_needed',
-    'C03_generator_refuted', 'C03_generator_refuted_throw', 'C03_generator_refuted_close',
-    'C03_generator_partial', 'C03_generator_partial_nonvacuous', 'C03_generator_return_value',
-    'C03_async_generator_refuted', 'C03_async_generator_refuted_athrow_aclose', 'C03_async_generator_partial',
-    'C03_generator_repaired_operations', 'C03_generator_repaired', 'C03_generator_repaired_nonvacuous',
-    'C03_generator_repaired_residual', 'C03_generator_current',
+    'C03_generator_operations', 'C03_generator_full', 'C03_generator_full_nonvacuous', 'C03_generator_residual',
+    'C03_generator_former_witnesses',
+    'C03_async_generator_operations', 'C03_async_generator_full',
+    'C03_generator_current',
+    'C03_nonforwarding_wrapper_refuted', 'C03_nonforwarding_wrapper_witnesses', 'C03_nonforwarding_wrapper_partial',
     'C03_metadata', 'C03_metadata_nonvacuous',
 ]
 LEVEL = 'proof'
 
 F_RET = 'C03-generator-return-value-dropped'      # fixed in /repo by 44481f3: no longer a classifier target
-F_THROW = 'C03-generator-throw-close-not-forwarded'
-F_ATHROW = 'C03-async-generator-athrow-aclose-not-forwarded'
+F_THROW = 'C03-generator-throw-close-not-forwarded'                 # fixed in /repo by 767d84e: no longer classifier targets;
+F_ATHROW = 'C03-async-generator-athrow-aclose-not-forwarded'       # a regression comes out as VIOLATION (finding None)
 F_NEST = 'C03-second-profiler-valueerror'
 
 KINDS = ['gen', 'coro', 'agen']
@@ -156,32 +156,8 @@ def py_spec_protocol(kind, table, ops, wobs, robs):
 
 
 def classify_protocol(kind, ops, wobs, robs):
-    """map a wrapped-vs-unwrapped difference to a known finding id, by its FIRST divergence only"""
-    w = erase(wobs)
-    for i, (ws, rs) in enumerate(zip(w[0], robs[0])):
-        if ws == rs:
-            continue
-        op = ops[i]
-        # was the original object suspended when the op arrived?  (it answered the previous
-        # op by yielding, or by refusing to close)
-        suspended = i > 0 and (1000 <= robs[0][i - 1][-1] < 2000 or
-                               (ops[i - 1][0] == 'c' and robs[0][i - 1][-1] == 4005))
-        if kind in ('gen', 'agen') and op[0] in ('t', 'c') and suspended:
-            # signature: throw()/close() reaches a suspended wrapped (async) generator; the wrapper
-            # does not forward it: the body sees GeneratorExit (from finalisation) instead
-            # exactly what a non-forwarding wrapper does, nothing else: the body is finalised (sees
-            # GeneratorExit once), throw(e) comes straight back as e (StopIteration -> RuntimeError by
-            # PEP 479), close() returns None
-            body_saw = [z for z in ws[:-1]]
-            if op[0] == 'c':
-                expected = 5000
-            else:
-                e = op[1]
-                expected = 4000 + (5 if (e == 4 or (kind == 'agen' and e == 7)) else e)
-            if body_saw == [200 + GE] and ws[-1] == expected:
-                return F_THROW if kind == 'gen' else F_ATHROW
-            return None
-        return None
+    """map a wrapped-vs-unwrapped protocol difference to a known finding id.  Since /repo 44481f3 (return value)
+    and 767d84e (throw/close forwarding) no protocol difference is a known finding: every one is a violation."""
     return None
 
 
@@ -696,9 +672,10 @@ def run(tier, seed):
         ops_length=_hist(len(r['ops']) for r in recs),
         table_states=_hist(len(r['table']) for r in recs),
         descriptor_kinds=_hist(c['term'][0] for c in extra['desc']),
-        hypothesis_holds_on=dict(C03_generator_partial_and_async=hyp_partial, C03_coroutine=hyp_coro,
+        hypothesis_holds_on=dict(C03_nonforwarding_wrapper_partial_send_only=hyp_partial, C03_generator_operations_all_cases=sum(1 for r in recs if r['kind'] != 'coro'), C03_coroutine=hyp_coro,
                                  C03_coroutine_outside_hypotheses_not_judged=hyp_coro_out,
-                                 C03_generator_repaired_honours_close=hyp_repaired,
+                                 C03_generator_full_and_async_honours_close=hyp_repaired,
+                                 generator_finalisation_not_judged_body_ignores_close=sum(1 for r in recs if r['kind'] != 'coro') - hyp_repaired,
                                  C03_function_can_enable=sum(1 for c in extra['nest'] if len({p for _, p in c['layers']}) == 1),
                                  C03_two_profilers_two_instances=two_prof),
         measured_not_judged=dict(argument_binding_typeerror_surfaces=out.get('defer'),
